@@ -82,54 +82,62 @@ def run(check, prog):
     it = Interp(prog, max_depth=1, opaque=[I + '_choose_mie_vs_multisphere'],
                 inline_new=False)
     res = it.analyze(q)
-    rows = table_of(res.ret)
-    # the last elif's guard is visible on the raising path (its else branch)
-    for o in res.raises:
-        if len(o.cond) == len(rows) and rows[-1][0] is None and \
-                all(not pol for t, pol in o.cond):
-            rows[-1] = (o.cond[-1][0], rows[-1][1])
-            rows.append((None, ('raise', o.value)))
-    want = [
-        ([SC + 'sphere.Sphere'], ('new', TH + 'mie.Mie')),
-        ([SC + 'spherecluster.Spheres'], ('call', I + '_choose_mie_vs_multisphere')),
-        ([SC + 'spheroid.Spheroid', SC + 'cylinder.Cylinder'],
-         ('new', TH + 'tmatrix.Tmatrix')),
-        ([SC + 'scatterer.Scatterer'], ('new', TH + 'dda.DDA')),
-    ]
-    ok = len(rows) >= len(want)
-    for i, (gcls, act) in enumerate(want):
-        if i >= len(rows):
-            break
-        g, a = rows[i]
-        got_cls = sorted(classes_in_guard(g)) if g is not None else None
-        okr = got_cls == sorted(gcls) and a[0] == act[0] and a[1] == act[1] and \
-            (a[0] != 'new' or (not a[2] and not a[3]))
-        if a[0] == 'call':
-            okr = okr and a[2] == (sym('scatterer'),)
-        check.require(okr, 'Q1-default-theory-table', 'row %d: %s' % (
-            i, ' | '.join(c.rpartition('.')[2] for c in gcls)),
-            '-> %s' % act[1].rpartition('.')[2], loc,
-            fail_detail='row %d is (%s -> %s)' % (
-                i, show(g)[:120] if g is not None else 'else', show(a)[:80]))
-    ok_else = any('AutoTheoryFailed' in show(o.value) for o in res.raises)
-    check.require(ok_else, 'Q1-default-theory-table', 'else row',
-                  'anything else raises AutoTheoryFailed', loc)
-    check.require(len(rows) == len(want) + 1 or (len(rows) == len(want) and ok_else),
-                  'Q1-default-theory-table', 'table length',
-                  'exactly the documented rows', loc,
-                  fail_detail='%d rows' % len(rows))
-    # shadowing: a later guard class must not be a subclass of an earlier one
-    seen = []
-    for g, a in rows:
-        if g is None:
-            continue
-        for c in classes_in_guard(g):
-            sh = [e for e in seen if prog.is_subclass(c, e)]
-            check.require(not sh, 'Q1-no-shadowing', c.rpartition('.')[2],
-                          'not a subclass of an earlier guard\'s class', loc,
-                          fail_detail='%s is a subclass of %s, tested earlier: this row '
-                          'can never be taken' % (c, sh))
-        seen += classes_in_guard(g)
+    # read the function as a truth table: for every scatterer class of the package
+    # (and for a non-scatterer) the isinstance tests have definite answers, which
+    # select one leaf; the leaf must be the documented theory.  Re-arranging the
+    # chain (early returns, merged isinstance tuples) does not change this table;
+    # testing a base class before its subclass does.
+    from hpstatic.logic import select
+    v = res.ret_with_raises
+    sc_ = sym(fd.args.args[0].arg)
+    SPH, SPHS = SC + 'sphere.Sphere', SC + 'spherecluster.Spheres'
+    SPHD, CYL = SC + 'spheroid.Spheroid', SC + 'cylinder.Cylinder'
+    BASE = SC + 'scatterer.Scatterer'
+    classes = sorted(prog.subclasses(BASE)) + [None]
+    nrow = 0
+    bad = []
+    for C in classes:
+        def hyp(t, C=C):
+            if t[0] == 'call' and t[1] == 'isinstance' and len(t[2]) == 2 and \
+                    t[2][0] == sc_:
+                ks = t[2][1][1] if t[2][1][0] == 'tuple' else (t[2][1],)
+                if all(k[0] == 'classref' for k in ks):
+                    return C is not None and any(prog.is_subclass(C, k[1]) for k in ks)
+                return None
+            if t[0] == 'call' and isinstance(t[1], tuple) and t[1][0] == 'attr' and \
+                    t[1][2] == 'can_handle' and 'DDA' in show(t[1][1]):
+                return C is not None      # DDA accepts any Scatterer (checked below)
+            if t[0] == 'call' and t[1] == TH + 'dda.DDA.can_handle':
+                return C is not None
+            return None
+        leaf = select(v, hyp)
+        nrow += 1
+        if C is None:
+            want_txt = 'AutoTheoryFailed'
+            ok_ = leaf is not None and leaf[0] == 'raise' and \
+                'AutoTheoryFailed' in show(leaf)
+        elif prog.is_subclass(C, SPH):
+            want_txt = 'Mie()'
+            ok_ = leaf == ('new', TH + 'mie.Mie', (), ())
+        elif prog.is_subclass(C, SPHS):
+            want_txt = '_choose_mie_vs_multisphere(scatterer)'
+            ok_ = leaf == ('call', I + '_choose_mie_vs_multisphere', (sc_,), ())
+        elif prog.is_subclass(C, SPHD) or prog.is_subclass(C, CYL):
+            want_txt = 'Tmatrix()'
+            ok_ = leaf == ('new', TH + 'tmatrix.Tmatrix', (), ())
+        else:
+            want_txt = 'DDA()'
+            ok_ = leaf == ('new', TH + 'dda.DDA', (), ())
+        if not ok_:
+            bad.append('%s -> %s (documented: %s)' % (
+                C.rpartition('.')[2] if C else 'a non-scatterer',
+                show(leaf)[:60] if leaf else 'undecided', want_txt))
+    check.floor('scatterer classes in the default-theory table', nrow, 15)
+    check.require(not bad, 'Q1-default-theory-table', 'determine_default_theory_for',
+                  'Sphere (and subclasses) -> Mie; Spheres -> Mie or Multisphere by '
+                  'separation; Spheroid, Cylinder -> Tmatrix; any other scatterer -> DDA; '
+                  'anything else -> AutoTheoryFailed (%d classes)' % nrow, loc,
+                  fail_detail='; '.join(bad[:4]))
     # DDA.can_handle
     q2 = TH + 'dda.DDA.can_handle'
     it2 = Interp(prog, max_depth=1)
